@@ -424,16 +424,32 @@ Definition out_ref (e : bytes * refval) : out :=
 Definition out_unit (r : res unit) : out :=
   match r with Ok _ => OOk [] | Er e => OErr (err_name e) end.
 
-Definition step (s : store) (o : op) : store * out :=
+(* typed results of one operation *)
+Inductive tres :=
+| TUnit (r : res unit)
+| TRef (n : bytes) (r : res refval)
+| TList (r : res (list (bytes * refval))).
+
+Definition step_t (s : store) (o : op) : store * tres :=
   match o with
-  | OSet n v old => let (s', r) := set_ref s n v old in (s', out_unit r)
-  | ORef n => (s, match get_ref s n with Ok v => OOk [out_ref (n, v)] | Er e => OErr (err_name e) end)
-  | ORefs => (s, match list_refs s with
-                 | Ok l => OOk [OList (map out_ref (sort_refs l))]
-                 | Er e => OErr (err_name e) end)
-  | ORm n => let (s', r) := remove_ref s n in (s', out_unit r)
-  | OPack => let (s', r) := pack_refs s in (s', out_unit r)
+  | OSet n v old => let (s', r) := set_ref s n v old in (s', TUnit r)
+  | ORef n => (s, TRef n (get_ref s n))
+  | ORefs => (s, TList (list_refs s))
+  | ORm n => let (s', r) := remove_ref s n in (s', TUnit r)
+  | OPack => let (s', r) := pack_refs s in (s', TUnit r)
   end.
+
+Definition out_tres (r : tres) : out :=
+  match r with
+  | TUnit r => out_unit r
+  | TRef n (Ok v) => OOk [out_ref (n, v)]
+  | TRef _ (Er e) => OErr (err_name e)
+  | TList (Ok l) => OOk [OList (map out_ref (sort_refs l))]
+  | TList (Er e) => OErr (err_name e)
+  end.
+
+Definition step (s : store) (o : op) : store * out :=
+  let (s', r) := step_t s o in (s', out_tres r).
 
 Fixpoint run (s : store) (ops : list op) : list out :=
   match ops with
